@@ -5,14 +5,16 @@ cd "$(dirname "$0")/.."
 export CARGO_NET_OFFLINE=true
 export RUSTFLAGS="--cfg nijaru_sy_verif"
 export CARGO_TARGET_DIR="$PWD/.build/target"
+REPO="${SY_REPO:-/repo}"
 mkdir -p .build evidence replays
-cp /repo/Cargo.lock harness/Cargo.lock
-cargo build --offline --bins --manifest-path /repo/Cargo.toml
+cp "$REPO/Cargo.lock" harness/Cargo.lock
+cargo build --offline --bins --manifest-path "$REPO/Cargo.toml"
 cargo build --offline --manifest-path harness/Cargo.toml
-python3 tools/extract_consts.py /repo > /dev/null
+python3 tools/extract_consts.py "$REPO" > /dev/null
 python3 -c "
-import sys; sys.path.insert(0,'tools'); import extract_consts
-ok,msg = extract_consts.regenerate('/repo','lean/SyModel/Generated/Consts.lean'); print('consts', ok, msg)"
+import sys; sys.path.insert(0,'tools'); import extract_consts, rs2lean
+ok,msg = extract_consts.regenerate('$REPO','lean/SyModel/Generated/Consts.lean'); print('consts', ok, msg)
+print('rs2lean', rs2lean.regenerate('$REPO','lean/SyModel/Generated/Code'))"
 cd lean && lake build
 # every property module (53 s cold on 16 cores), so that no quick check pays for a cold proof build
 lake build $(ls SyModel/Props/*.lean | sed 's#/#.#g; s#\.lean$##')
